@@ -46,6 +46,8 @@ def cells(tier):
         for o in DATA_OPT:                      # every optional dependency alone, with each named set
             for n in powerset(DATA_NAMED):
                 add(n + [o])
+        for a, b in itertools.combinations(DATA_OPT, 2):   # every pair of optional dependencies alone
+            add([a, b])
         for o in data_all:                      # all but one
             add([x for x in data_all if x != o])
         add(data_all)
@@ -149,7 +151,7 @@ def main():
             "samples": [{"crate": c, "features": f, "exit": rc, "seconds": round(dt, 2), "cmd": cmd} for (c, f, rc, _e, cmd, dt) in results[:3] + results[-2:]],
             "exhaustive": True,
             "exhaustive_subdomain": ("model 2^3, decode 2^2, facade 2^3, data 2^10 (named + optional-dependency features) + verif-hooks on" if tier == "thorough"
-                                     else "model 2^3, decode 2^2, facade 2^3, data named-feature powerset 2^2; data optional dependencies: each alone with each named set, all-but-one, all, 24 seeded subsets"),
+                                     else "model 2^3, decode 2^2, facade 2^3, data named-feature powerset 2^2; data optional dependencies: each alone with each named set, every pair alone, all-but-one, all, 24 seeded subsets"),
             "observed": {"cells_checked": len(results), "cells_built": sum(1 for r in results if r[2] == 0),
                          "per_crate_checked_built": per_crate,
                          "probe_runs": len(probe_results), "probe_ok": sum(1 for p in probe_results if p[1])},
